@@ -14,8 +14,12 @@ from common import err_code
 
 CONFIG = {
     "cone": ["Base/ListUtil.v", "Base/QUtil.v", "Base/FirstArgmax.v", "Model/Store.v", "Proofs/StoreProofs.v", "Model/Archive.v",
-             "Proofs/ArchiveProofs.v", "Model/Validate.v", "Proofs/C11Proofs.v", "Model/Scheduler.v", "Proofs/C11SchedProofs.v", "Properties/C11.v"],
-    "trusted": ["Model/Validate.v describes a malformed call by WHERE the code rejects it (before the store is touched / inside ArrayStore.add "
+             "Proofs/ArchiveProofs.v", "Model/Validate.v", "Proofs/C11Proofs.v", "Model/Scheduler.v", "Proofs/C11SchedProofs.v", "Properties/C11.v",
+             "Generated/StoreAddGen.v", "Refine/StoreAddRefine.v"],
+    "extra_property_files": ["Refine/StoreAddRefine.v"],
+    "trusted": ["harness/py2v_store.py + Refine/StoreAddRefine.v: the phase order of ArrayStore.add read from the current source (everything that can "
+                "raise comes before the first write)",
+                "Model/Validate.v describes a malformed call by WHERE the code rejects it (before the store is touched / inside ArrayStore.add "
                 "after the update counter was bumped); that every malformation of the catalogue is rejected at one of these two points, "
                 "before any write, is what the correspondence run checks on the real code (sampled)",
                 "the observation function: data() of every field, stats, best_elite, len, empty (+ boundaries and bounds for "
@@ -496,6 +500,8 @@ def scheduler_cases(rep, rng, n):
 
 
 def check(rep, tier, seed, driver):
+    import py2v_store
+    py2v_store.report(rep)
     rng = random.Random(seed)
     n = 400 if tier == "quick" else 8000
     rep.rule = ("fault injection: a valid random prefix (reachable state), then 1-3 malformed calls drawn from the catalogue {add, add_single, "
